@@ -136,7 +136,7 @@ claim('C17', 'table agreement across crates: characters produced by the lexer es
       'Behavioural equivalence of the transpiled script and the compiled bytecode is not decided.',
       'DESIGN.md §3 C17')
 claim('C18', 'flow rule inside JsonGenerator: value / literal text must pass a JSON encoder before reaching the output',
-      'Decides that every literal or value text written into the JSON output is encoded (3 known findings: none is today, so True/None/quotes yield invalid JSON).',
+      'Decides that every literal or value text written into the JSON output is encoded (repaired in /repo: a json_value encoder now wraps every sink).',
       'That the emitted values equal the constant initializers is not decided.',
       'DESIGN.md §3 C18')
 
